@@ -68,7 +68,7 @@ def build_side(side, keys, nkeys, config, form, variant=None):
         t = Table([Vector(list(vals), name=nm) for nm, vals in cols])
     else:
         from . import provenance
-        _, t = provenance.table_variant(cols, variant)
+        _, t = provenance.table_variant(cols, variant, flagged=True)
     if form == "name":
         on = [nm for nm, _ in kcols]
     elif form == "column":
